@@ -348,17 +348,33 @@ theorem inv_insert {ex : Option Nat} (s : State) (ts id : Nat) (h : InvX ex s) (
     early := h.early, oneFlight := h.oneFlight }
 
 
-theorem inv_announce (s : State) (id ts : Nat) (h : Inv s) (hst : (id, ts) ∈ s.stored)
+theorem inv_announce (s : State) (id ts : Nat) (h : Inv s)
+    (hst : (id, ts) ∈ s.stored ∨ (id ∈ s.known ∧ id ∈ sIds s))
     (hw : id ∉ s.written) (hd : id ∉ dIds s) :
     Inv (addQueued { s with known := if s.known.contains id then s.known else id :: s.known } ts id) := by
+  have hsid : id ∈ sIds s := by
+    rcases hst with hst | hst
+    · exact List.mem_map.mpr ⟨(id, ts), hst, rfl⟩
+    · exact hst.2
   by_cases hk : id ∈ s.known
   · have hc : s.known.contains id = true := by simpa using hk
     simp only [hc, if_true]
     rcases addQueued_cases s ts id with ⟨he, _⟩ | ⟨he, hq, ha⟩
     · rw [he]; exact h
-    · rw [he]; exact inv_insert s ts id h (Or.inl rfl) hq ha hd hw hk hst
+    · -- a known stored message is tracked somewhere: the entry cannot be let in (whatever timestamp it carries)
+      exfalso
+      rcases h.tracked id hk hsid with t | t | t | t | t
+      · simp at t
+      · exact hw t
+      · exact ha t
+      · exact hd t
+      · exact hq ((h.qids id).mpr t)
   · have hc : s.known.contains id = false := by simpa using hk
     simp only [hc, Bool.false_eq_true, if_false]
+    have hst : (id, ts) ∈ s.stored := by
+      rcases hst with hst | hst
+      · exact hst
+      · exact absurd hst.1 hk
     have hfresh : id ∉ qIds s ∧ id ∉ s.active := by
       constructor <;> intro hx <;> apply hk <;> apply h.known id <;> simp [hx]
     have h0 : InvX (some id) { s with known := id :: s.known } := {
@@ -436,14 +452,14 @@ def retried (s : State) (id wh : Nat) : State :=
            active := without s.active id }
 
 theorem inv_retry_some (s : State) (id w : Nat) (h : Inv s) (hin : id ∈ s.retry) :
-    Inv (addQueued (retried s id (s.now + w)) (s.now + w) id) := by
+    Inv (addQueued (retried s id w) w id) := by
   have hact : id ∈ s.active := (h.act id).mpr (Or.inr (Or.inl hin))
   have hni : id ∉ s.inflight := fun hc => ((h.excl id).1 hc).1 hin
   have hnr : id ∉ s.rem := (h.excl id).2 hin
   obtain ⟨hq, hd⟩ := h.actFree id hact
   have hw : id ∉ s.written := fun hc => (h.written id hc).1 hact
   have hsid : id ∈ sIds s := h.actStored id hact
-  have h2 : InvX (some id) (retried s id (s.now + w)) := {
+  have h2 : InvX (some id) (retried s id w) := {
     sNodup := by
       simp only [sIds, retried, setTs_ids]; exact h.sNodup
     known := fun x hx => by
@@ -491,13 +507,13 @@ theorem inv_retry_some (s : State) (id w : Nat) (h : Inv s) (hin : id ∈ s.retr
       · exact Or.inr (Or.inr (Or.inr (Or.inl t)))
       · exact Or.inr (Or.inr (Or.inr (Or.inr t)))
     early := h.early, oneFlight := h.oneFlight }
-  rcases addQueued_cases (retried s id (s.now + w)) (s.now + w) id with ⟨_, hr⟩ | ⟨he, hq', ha'⟩
+  rcases addQueued_cases (retried s id w) w id with ⟨_, hr⟩ | ⟨he, hq', ha'⟩
   · exfalso
     rcases hr with hr | hr
     · exact hq ((h.qids id).mp hr)
     · exact (mem_without.mp (by simpa [retried] using hr)).2 rfl
   · rw [he]
-    exact inv_insert _ (s.now + w) id h2 (Or.inr rfl) hq' ha' hd hw (h.known id (Or.inr (Or.inr (Or.inl hact))))
+    exact inv_insert _ w id h2 (Or.inr rfl) hq' ha' hd hw (h.known id (Or.inr (Or.inr (Or.inl hact))))
       (mem_setTs_self hsid)
 
 
@@ -839,7 +855,14 @@ theorem inv_step (s s' : State) (l : Label) (h : Inv s) (hc : calm s l) (hs : st
     split at hs
     · rename_i hst
       simp only [Option.some.injEq] at hs; subst hs
-      exact inv_announce s id ts h (by simpa using hst) hc.1 hc.2
+      refine inv_announce s id ts h ?_ hc.1 hc.2
+      simp only [Bool.or_eq_true, List.contains_eq_mem, decide_eq_true_eq, Bool.and_eq_true, Option.isSome_iff_ne_none, ne_eq] at hst
+      rcases hst with hst | hst
+      · exact Or.inl hst
+      · refine Or.inr ⟨hst.1, ?_⟩
+        cases hn : tsOf s id with
+        | none => exact absurd hn hst.2
+        | some v => exact Classical.byContradiction fun hc' => by rw [tsOf_none.mpr hc'] at hn; simp at hn
     · simp at hs
   | tick dt =>
     simp only [step, Option.some.injEq] at hs; subst hs
